@@ -1,0 +1,14 @@
+//go:build verif
+
+package ech
+
+import "time"
+
+// VerifSetClock replaces the package clock used by the resolver cache. It is
+// only compiled into verification builds (build tag "verif"). The returned
+// function restores the previous clock.
+func VerifSetClock(f func() time.Time) (restore func()) {
+	old := timeNow
+	timeNow = f
+	return func() { timeNow = old }
+}
